@@ -194,6 +194,21 @@ class Cache:
             self._norm_cased_files[norm_cased_filename] = None
             self._rebuilt_files.add(filename)
 
+    def cancel_building_file(self, filename):
+        """Undo a call to ``start_building_file``.
+
+        This is for the case where we fail to prepare for building the
+        file, before calling the function passed to
+        ``FileBuilder.build_file_with_comparison``.
+
+        Arguments:
+            filename (str): The non-norm-cased filename.
+        """
+        with self._files_lock:
+            self._files.pop(filename)
+            self._norm_cased_files.pop(os.path.normcase(filename))
+            self._rebuilt_files.discard(filename)
+
     def finish_building_file(self, operation):
         """Record the result of building the specified file.
 
